@@ -19,3 +19,163 @@ def kernels(tier):
 
 def harness(kernel, shape):
     return l1.filtered(l1.step_harness(shape), PREFIXES)
+
+
+# ---- L2 kernels: estimate_added_delay == inserted delay, align -------------
+
+from checks import l2  # noqa: E402
+from symx import core, stubs  # noqa: E402
+from symx.core import AND, smax  # noqa: E402
+
+_l1_setup, _l1_setup_concrete = setup, setup_concrete
+
+
+def setup():
+    _l1_setup()
+    l2.setup()
+
+
+def setup_concrete():
+    _l1_setup_concrete()
+    l2.setup_concrete()
+
+
+STUBS = STUBS + ["estimate/align kernels: real Sequence on a VirtualDevice (clock 4/2/1, modulation 20 MHz); phases on the 2*pi*k/360 grid; "
+                 "modulation buffers are an uninterpreted function of the waveform's defining data, so estimate and add see the same fall times"]
+
+_base_kernels, _base_harness = kernels, harness
+
+EST_PROGRAMS = {
+    "same_channel_phase_jump": dict(
+        chans=[("g", "ryd_glob", None)],
+        pre=[["add", "g", "A", False]], target="g"),
+    "phase_ref_from_post_shift": dict(
+        chans=[("g", "ryd_glob", None)],
+        pre=[["add", "g", "A", True]], target="g"),
+    "phase_ref_from_shift": dict(
+        chans=[("g", "ryd_glob", None)],
+        pre=[["shift", ["q0", "q1", "q2"], "ground-rydberg"], ["add", "g", "A", False]], target="g"),
+    "two_channels": dict(
+        chans=[("g", "ryd_glob", None), ("l", "ryd_loc", "q0")],
+        pre=[["add", "g", "A", True], ["add", "l", "B", False]], target="l"),
+    "two_channels_retarget": dict(
+        chans=[("g", "ryd_glob", None), ("l", "ryd_loc", "q0")],
+        pre=[["add", "l", "A", False], ["delay", "l"], ["target", "l", "q1"], ["add", "g", "B", True]], target="l"),
+    "other_basis": dict(
+        chans=[("a", "ram_glob", None), ("b", "ram_loc", "q0")],
+        pre=[["add", "a", "A", True], ["shift", ["q0"], "digital"], ["add", "b", "B", False]], target="b"),
+}
+
+
+def h_estimate(shape):
+    P = EST_PROGRAMS[shape["program"]]
+
+    def h(inp):
+        stubs.bind(inp)
+        from pulser.pulse import Pulse
+
+        seq = l2.new_seq("virt")
+        for (n, cid, it) in P["chans"]:
+            seq.declare_channel(n, cid, **({"initial_target": it} if it else {}))
+        try:
+            for i, op in enumerate(P["pre"]):
+                if op[0] == "add":
+                    ph = inp.phase("ph%d" % i, 360, -1, 1)
+                    post = inp.phase("post%d" % i, 360, -1, 1) if op[3] else 0.0
+                    seq.add(Pulse.ConstantPulse(inp.mult("d%d" % i, 4, 8, 400), 1.0, 0.0, ph, post), op[1])
+                elif op[0] == "shift":
+                    seq.phase_shift(inp.phase("phi%d" % i, 360, -1, 1), *op[1], basis=op[2])
+                elif op[0] == "delay":
+                    seq.delay(inp.mult("d%d" % i, 4, 8, 400), op[1])
+                elif op[0] == "target":
+                    seq.target(op[2], op[1])
+        except l2.REFUSALS:
+            raise core.Infeasible()
+        ch = P["target"]
+        new = Pulse.ConstantPulse(inp.mult("dn", 4, 8, 400), 1.0, 0.0, inp.phase("phn", 360, -1, 1))
+        before = l2.snapshot(seq)
+        proto = shape["protocol"]
+        try:
+            est = seq.estimate_added_delay(new, ch, proto)
+        except l2.REFUSALS:
+            est = None
+        obs = [("c03:estimate_is_read_only", l2.snap_equal(before, l2.snapshot(seq)))]
+        t0 = seq._schedule[ch][-1].tf
+        try:
+            seq.add(new, ch, proto)
+            added = True
+        except l2.REFUSALS:
+            added = False
+        obs.append(("c03:estimate_and_add_agree_on_refusal", (est is not None) == added))
+        if added and est is not None:
+            real = seq._schedule[ch][-1].ti - t0
+            obs.append(("c03:estimate_equals_inserted_delay", est == real))
+        return obs
+
+    return h
+
+
+def h_align(shape):
+    """align makes the channels end together at the latest of their ends
+    (counting the fall time when at_rest)."""
+
+    def h(inp):
+        stubs.bind(inp)
+        from pulser.pulse import Pulse
+
+        seq = l2.new_seq("virt")
+        names = []
+        for (n, cid, it) in shape["chans"]:
+            seq.declare_channel(n, cid, **({"initial_target": it} if it else {}))
+            names.append(n)
+        try:
+            for i, n in enumerate(names):
+                for j, kind in enumerate(shape["pre"][i]):
+                    if kind == "p":
+                        seq.add(Pulse.ConstantPulse(inp.mult("d%d_%d" % (i, j), 4, 8, 400), 1.0, 0.0, 0.0), n, "no-delay")
+                    else:
+                        seq.delay(inp.mult("d%d_%d" % (i, j), 4, 8, 400), n)
+        except l2.REFUSALS:
+            raise core.Infeasible()
+        at_rest = shape["at_rest"]
+        ends = {n: seq.get_duration(n, include_fall_time=at_rest) for n in names}
+        old_end = {n: seq.get_duration(n) for n in names}
+        latest = smax(list(ends.values()))
+        seq.align(*names, at_rest=at_rest)
+        obs = []
+        for n in names:
+            cs = seq._schedule[n]
+            ch = cs.channel_obj
+            clock = ch.clock_period
+            e = seq.get_duration(n)
+            need = latest - old_end[n]
+            # each channel ends at the smallest admissible time >= the latest end
+            delta = smax(need, ch.min_duration)
+            delta = delta + ((-delta) % clock)
+            obs.append(("c03:align_end", e == core.ITE(need > 0, old_end[n] + delta, old_end[n])))
+            obs.append(("c03:align_reaches_latest", e >= latest))
+        return obs
+
+    return h
+
+
+def kernels(tier):
+    ks = _base_kernels(tier)
+    for prog in EST_PROGRAMS:
+        for proto in ("min-delay", "no-delay", "wait-for-all"):
+            ks.append(("estimate", dict(program=prog, protocol=proto)))
+    chans2 = [("g", "ryd_glob", None), ("l", "ryd_loc", "q0")]
+    chans3 = chans2 + [("a", "ram_glob", None)]
+    for at_rest in (True, False):
+        for pre in (["p", "d"], ["p", "p"], ["pd", "p"], ["", "p"], ["dp", "pd"]):
+            ks.append(("align", dict(chans=chans2, pre=[list(x) for x in pre], at_rest=at_rest)))
+        ks.append(("align", dict(chans=chans3, pre=[["p"], ["d"], ["p", "d"]], at_rest=at_rest)))
+    return ks
+
+
+def harness(kernel, shape):
+    if kernel == "estimate":
+        return h_estimate(shape)
+    if kernel == "align":
+        return h_align(shape)
+    return _base_harness(kernel, shape)
